@@ -13,6 +13,9 @@ for sid in sorted(os.listdir(os.path.join(V, "seeded"))):
     d = os.path.join(V, "seeded", sid)
     meta = json.load(open(os.path.join(d, "meta.json")))
     props = sorted(meta.get("caught_by") or {})
+    if meta.get("obsolete"):
+        print(f"{sid}: obsolete since {meta['obsolete'].get('since')}")
+        continue
     if not props:
         print(f"{sid}: recorded as NOT caught (honest miss)")
         continue
